@@ -16,6 +16,7 @@
  R7 design inputs : budget formulas and edge weights of the auto-design (shared with C09-R1, C08-R2).
  Rz sentinel      : fields defaulted when None are None when absent from the input (loader .get without another default).
  R8 export guards : an optional export entry is conditioned only on the value it exports.
+ R9 library / raw export: design functions do not write the equipment library; to_json exports loaded values, not derived state.
 """
 import ast
 
@@ -371,8 +372,47 @@ def r8_export_guards(ctx):
     ctx.need('R8.export-guards', 4)
 
 
+def r9_library_and_raw_export(ctx):
+    """R9: (a) designing does not edit the equipment library it is given (effect summaries: no write through the `equipment`
+    parameter of designed_network / design_network / build_network / add_missing_elements_in_network): a second design or a
+    reload with the same library starts from the same data; (b) an element exports what it was LOADED with, not state its
+    constructor derived from it by arithmetic (a derived value would be transformed again on reload)"""
+    repo = ctx.repo
+    from ..effects import effects_of
+    for mod, fn in (('gnpy.tools.worker_utils', 'designed_network'), (NW, 'design_network'), (NW, 'build_network'),
+                    (NW, 'add_missing_elements_in_network')):
+        f = repo.func(mod, fn)
+        if 'equipment' not in f.params:
+            raise AnchorMissing(f'{fn}(.., equipment, ..)')
+        w = effects_of(repo, f).param_writes.get(f.params.index('equipment')) or set()
+        ctx.check('R9.library-untouched', site(f), not w, key(f, 'equipment-writes'),
+                  f'{fn} writes {sorted(w)[:5]} into the equipment library it is given: a later design (or the re-design of the exported '
+                  'network) with the same library object comes out different')
+    m = repo.module(EL)
+    n = 0
+    for cls in m.classes.values():
+        tj = cls.getters.get('to_json') or cls.methods.get('to_json')
+        init = cls.methods.get('__init__')
+        if tj is None or init is None:
+            continue
+        derived = {}
+        for s in ast.walk(init.node):
+            if isinstance(s, ast.Assign) and isinstance(s.targets[0], ast.Attribute) and isinstance(s.targets[0].value, ast.Name) and \
+                    s.targets[0].value.id == 'self' and any(isinstance(x, ast.BinOp) and isinstance(x.op, (ast.Mult, ast.Div, ast.Add, ast.Sub))
+                                                             for x in ast.walk(s.value)):
+                derived[s.targets[0].attr] = s
+        used = sorted({a.attr for a in ast.walk(tj.node) if isinstance(a, ast.Attribute) and isinstance(a.value, ast.Name) and
+                       a.value.id == 'self' and a.attr in derived})
+        n += 1
+        ctx.check('R9.raw-export', f'{site(tj)} {cls.name}', not used, key(tj, 'derived-export'),
+                  f'{cls.name}.to_json exports {used}, which __init__ computes from the loaded values by arithmetic '
+                  f'({ast.unparse(derived[used[0]].value)[:60] if used else ""}): the reloaded element applies the same arithmetic again and drifts')
+    ctx.need('R9.library-untouched', 4)
+    ctx.need('R9.raw-export', 5)
+
+
 from ..presence import rule_for as _presence_rule
 
 RULES_PRESENCE = ('Rp.presence', _presence_rule('C17', 'a value of exactly 0 would be exported as missing and re-designed on reload'))
 
-RULES = [('R5.handoff', r5_handoff), ('R1.bracket', r1_bracket), ('R2.completeness', r2_completeness), ('R3.fix-point', r3_fixpoints), ('R4.keys', r4_keys), RULES_PRESENCE, ('R6.padding-cache', r6_padding_cache), ('Rx.export-keys', rx_export_keys), ('R7.design-inputs', r7_design_inputs), ('Rz.sentinel', rs_sentinel), ('R8.export-guards', r8_export_guards)]
+RULES = [('R5.handoff', r5_handoff), ('R1.bracket', r1_bracket), ('R2.completeness', r2_completeness), ('R3.fix-point', r3_fixpoints), ('R4.keys', r4_keys), RULES_PRESENCE, ('R6.padding-cache', r6_padding_cache), ('Rx.export-keys', rx_export_keys), ('R7.design-inputs', r7_design_inputs), ('Rz.sentinel', rs_sentinel), ('R8.export-guards', r8_export_guards), ('R9.library-and-raw-export', r9_library_and_raw_export)]
